@@ -18,6 +18,7 @@ extern ares_query_t  *RQ_query[M_MAXCALLS];
 extern ares_status_t  RQ_status[M_MAXCALLS];
 extern ares_bool_t    RQ_inc[M_MAXCALLS];
 extern int            RQ_deferred[M_MAXCALLS];     /* requeue array given */
+extern size_t         RQ_srvfail[M_MAXCALLS];      /* failure count of the server the request was on, at requeue time */
 extern int            RQ_resent[MAXTOK];           /* token left "live, to be re-sent" by the stub */
 extern int            SQ_calls;                    /* ares_send_query stub */
 extern ares_query_t  *SQ_query[M_MAXCALLS];
